@@ -144,7 +144,61 @@ def run_hotloop(ctx):
     ctx.sample = ctx.case
 
 
+_guard = [None]
+
+
+def setup(leg, params):
+    """3.11+: every value-stack slot that inspect_frame reads (a reference is taken in the same
+    step) must lie inside what the frame owns at that moment - also for frames of the calling
+    thread itself, where nothing moves: a read above the frame's current depth would be a stale
+    pointer.  Same stand-in for the module's `ctypes` name as in the thread legs of C07."""
+    import sys
+
+    if sys.version_info < (3, 11) or params.get("mode") == "hotloop":
+        return
+    from stackscope import _lowlevel, lowlevel
+    from stackscope import _lowlevel_cpython_311 as impl
+    from . import c07
+
+    _lowlevel._check_trickery_available()
+    _lowlevel.inspect_frame(sys._getframe())
+    if not isinstance(impl.ctypes, c07.SlotGuard):
+        g = c07.SlotGuard(impl.ctypes, impl)
+        impl.ctypes = g
+        impl.FrameObject = g.FrameObjectProxy
+        real_inspect = impl.inspect_frame
+
+        from ..world import stackdepth
+
+        def watched(frame):
+            prev = g.frame, g.fixed_range
+            g.frame = frame
+            g.fixed_range = stackdepth.owned_slot_range(frame, impl)
+            try:
+                return real_inspect(frame)
+            finally:
+                g.frame, g.fixed_range = prev
+
+        _lowlevel.inspect_frame = watched
+        lowlevel.inspect_frame = watched
+        _guard[0] = g
+
+
 def run(ctx):
     if ctx.params.get("mode") == "hotloop":
         return run_hotloop(ctx)
-    progworld.run_program(ctx, ["c02"], force={"probe": True}, suspend=False)
+    g = _guard[0]
+    if g is not None:
+        g.stale = []
+        g.checked = 0
+    try:
+        progworld.run_program(ctx, ["c02"], force={"probe": True}, suspend=False)
+    finally:
+        if g is not None:
+            ctx.stat("slot_reads_judged", g.checked)
+    if g is not None and g.stale:
+        from ..kernel import Violation
+
+        n = len(g.stale)
+        g.stale = []
+        raise Violation("c02_slot_read_beyond_owned_stack", "inspect_frame made %d read(s) of value-stack slots (or through an outdated frame pointer) that the frame did not own at that moment" % n, {})
